@@ -61,12 +61,12 @@ CLAIMS = {
     note=TB + 'the union of methods per route in the OPTIONS tree is part of the driver-level model (validated by correspondence), not of a theorem',
     technique='Lean 4 proof (decision logic of bite/default_options) + model/implementation correspondence'),
  'C15': dict(
-    text='Lean 4 theorems over a model of document generation on application trees (flatten of mounts with the fang lists of every enclosing application, operation assembly per handler signature, openapi_map_operation through every fang, assign_path_param_name): template_params_declared / path_params_named (the path parameters of every operation are named, in order, exactly by the :params of the route from the root) and path_params_required; security_exact / security_iff (a requirement iff an authentication fang guards the handler, one per fang); body_responses_exact; pairs_exact + documented_iff_registered + template_inj (path/method pairs are precisely the registered ones, the :p -> {p} conversion is injective on clean routes); differential run: the real document of generated applications (12 catalogue handlers, 4 fang kinds at any level, nested param mounts) against the model and against an independent reading of the tree; every schema object checked structurally against JSON Schema 2020-12, every $ref and security scheme resolved, and a request built from every documented operation must run exactly the registered handler',
+    text='Lean 4 theorems over a model of document generation on application trees (flatten of mounts with the fang lists of every enclosing application, operation assembly per handler signature, openapi_map_operation through every fang, assign_path_param_name): template_params_declared / path_params_named (the path parameters of every operation are named, in order, exactly by the :params of the route from the root) and path_params_required; security_exact / security_iff (a requirement iff an authentication fang guards the handler, one per fang); body_responses_exact; pairs_exact + documented_iff_registered + template_inj (path/method pairs are precisely the registered ones, the :p -> {p} conversion is injective on clean routes); differential run: the real document of generated applications (13 catalogue handlers, 4 fang kinds at any level, nested param mounts) against the model and against an independent reading of the tree; every schema object checked structurally against JSON Schema 2020-12, every $ref and security scheme resolved, and a request built from every documented operation must run exactly the registered handler',
     note=TB + 'modelled not verified: the lookup of each route through the compressed routing tree (covered by the correspondence and by the probes), schema contents (opaque in the model; validated structurally on the real document), serde_json serialisation of the document',
     technique='Lean 4 proof (invariant of assign_path_param_name by induction; refinement of the tree to the flat table) + model/implementation correspondence'),
  'C16': dict(
-    text='Lean 4 theorems over two separate transcriptions — the derive (Macro.*: schema_of_fields, schema_of_variants, Case) and serde (Serde.*: RenameRule, which keys a derived Serialize writes and which a derived Deserialize lets be absent, the four enum representations): case_field_agrees / case_variant_agrees (all 8 rules, every identifier), struct_keys_exact (properties = keys serde writes, in order; required iff serde can neither omit nor default; flattened members exact), unit_enum_names_exact, variant_realises (each variant schema places tag and content as the representation does, fields renamed by the variant rename_all else rename_all_fields); correspondence: the REAL macro sources and the REAL serde_derive internals run on every identifier up to length 4 x 8 rules and on generated definitions, both against the model; plus a catalogue of 26 compiled types whose serialized values are validated against the real schema, with key sets and requiredness probed through from_value',
-    note=TB + 'modelled not verified: the schemas of field types (opaque), the builder API of ohkami_openapi (read through the catalogue only), syn parsing of attributes (covered by correspondence); the statement "every serialized value validates" is decided by validation of catalogue values, not yet by a theorem; two recorded findings (null for Option / untagged unit)',
+    text='Lean 4 theorems over two separate transcriptions — the derive (Macro.*: schema_of_fields, schema_of_variants, Case) and serde (Serde.*: RenameRule, which keys a derived Serialize writes and which a derived Deserialize lets be absent, the four enum representations): case_field_agrees / case_variant_agrees (all 8 rules, every identifier), struct_keys_exact (properties = keys serde writes, in order; required iff serde can neither omit nor default; flattened members exact), unit_enum_names_exact, variant_realises (each variant schema places tag and content as the representation does, fields renamed by the variant rename_all else rename_all_fields), struct_value_validates (every key/value list a derived Serialize writes for a struct with named fields validates against the derived object schema: present properties hold values their schemas accept, absent ones are not required — excluding exactly the recorded null-for-None finding and flatten); correspondence: the REAL macro sources and the REAL serde_derive internals run on every identifier up to length 4 x 8 rules and on generated definitions, both against the model; plus a catalogue of 26 compiled types whose serialized values are validated against the real schema, with key sets and requiredness probed through from_value',
+    note=TB + 'modelled not verified: the schemas of field types (opaque), the builder API of ohkami_openapi (read through the catalogue only), syn parsing of attributes (covered by correspondence); the statement "every serialized value validates" is a theorem for structs (struct_value_validates, over a model of what derived Serialize writes, itself validated on the compiled catalogue); for enums and flattened members it is decided by validation of catalogue values; two recorded findings (null for Option / untagged unit)',
     technique='Lean 4 proof (two transcriptions shown equal / realising) + model/implementation correspondence against serde_derive itself'),
  'C17': dict(
     text='Lean 4 theorem stream_delivers_all (for every completing producer schedule the stream yields exactly all pushes in order: none lost when the producer completes with a non-empty queue, none duplicated) plus framing lemmas (zero-chunk termination, no empty data chunk, no CR survives normalisation); differential run of a real DataStream handler driven by scripted schedules against the model, and of the wire bytes against an RFC 9112 de-chunker and the WHATWG event-stream parser',
